@@ -2,7 +2,10 @@
 Executable model (C10) of `orange/orangeinp/detail/DeMorganSimplifier.{hh,cc}`
 (`transform_negated_joins`), transliterated statement by statement: first pass
 (`find_join_negations`, `add_negation_for_operands`), second pass (`build_simplified_tree`,
-`process_negated_joined_nodes`, `build_negated_node`, `should_insert_join`).
+`process_negated_joined_nodes`, `build_negated_node`, `should_insert_join`).  Loops are written
+as explicit folds (`foldE` = left fold that stops at the first error) so that they can be
+reasoned about; `std::vector<bool>` flags are functions `Nat → Bool` (all accesses are in
+bounds), the parents matrix stays a flat array, `node_ids_translation_` is a function.
 
 Release-build behaviour: the `CELER_ASSERT`s are compiled out.  Where a failed assertion would
 let a null `NodeId` flow into `CsgTree::insert` (undefined behaviour: out-of-bounds read in
@@ -28,14 +31,31 @@ def Matching.equivalent (m : Matching) : Nat :=
   else if m.unmodified ≠ invalid then m.unmodified
   else invalid
 
+/-- `node_ids_translation_` -/
+abbrev TrMap := Nat → Matching
+
+def updTr (tr : TrMap) (i : Nat) (f : Matching → Matching) : TrMap :=
+  fun j => if j = i then f (tr i) else tr j
+
+/-- left fold that stops at the first error -/
+def foldE {α β ε : Type} (f : α → β → Except ε α) : List β → α → Except ε α
+  | [], a => .ok a
+  | b :: bs, a =>
+    match f a b with
+    | .error e => .error e
+    | .ok a' => foldE f bs a'
+
 /-- first-pass result -/
 structure DMFlags where
-  newNeg : Array Bool
-  negJoin : Array Bool
+  /-- `new_negated_nodes_` -/
+  newNeg : Nat → Bool
+  /-- `negated_join_nodes_` -/
+  negJoin : Nat → Bool
   /-- `parents_[{child, parent}]`, row-major `child * size + parent` -/
   parents : Array Bool
   size : Nat
-  deriving Inhabited
+
+def setFlag (f : Nat → Bool) (i : Nat) : Nat → Bool := fun j => decide (j = i) || f j
 
 def DMFlags.parent (f : DMFlags) (child par : Nat) : Bool := f.parents.getD (child * f.size + par) false
 def DMFlags.setParent (f : DMFlags) (child par : Nat) : DMFlags :=
@@ -65,40 +85,39 @@ def addNegationForOperands (t : Tree) : Nat → Nat → DMFlags → Except Strin
   | fuel + 1, nodeId, fl =>
     match t.get nodeId with          -- `std::get<Joined>(tree_[node_id])`: not de-aliased
     | .joined _ operands =>
-      operands.foldlM (init := fl) fun fl operand =>
+      foldE (fun fl operand =>
         let target := dealiased t operand
         if isJoined target then
-          addNegationForOperands t fuel operand
-            { fl with negJoin := fl.negJoin.setIfInBounds operand true }
+          addNegationForOperands t fuel operand { fl with negJoin := setFlag fl.negJoin operand }
         else if !isNegated target then
-          .ok { fl with newNeg := fl.newNeg.setIfInBounds operand true }
-        else .ok fl
+          .ok { fl with newNeg := setFlag fl.newNeg operand }
+        else .ok fl) operands fl
     | _ => .error "bad-variant"
 
+/-- body of the first loop of `find_join_negations()` -/
+def fjStep (t : Tree) (fl : DMFlags) (nodeId : Nat) : Except String DMFlags :=
+  match dealiased t nodeId with
+  | .negated c =>
+    let fl := (fl.setParent c nodeId).setParent c 1
+    if isJoined (dealiased t c) then
+      addNegationForOperands t (t.size + 1) c { fl with negJoin := setFlag fl.negJoin c }
+    else .ok fl
+  | .joined _ ns => .ok (ns.foldl (fun fl o => (fl.setParent o nodeId).setParent o 1) fl)
+  | _ => .ok fl
+
 /-- `find_join_negations()` -/
-def findJoinNegations (t : Tree) : Except String DMFlags := do
+def findJoinNegations (t : Tree) : Except String DMFlags :=
   let n := t.size
-  let mut fl : DMFlags :=
-    { newNeg := Array.replicate n false, negJoin := Array.replicate n false,
+  let fl0 : DMFlags :=
+    { newNeg := fun _ => false, negJoin := fun _ => false,
       parents := Array.replicate (n * n) false, size := n }
-  for nodeId in [0:n] do
-    match dealiased t nodeId with
-    | .negated c =>
-      fl := (fl.setParent c nodeId).setParent c 1
-      if isJoined (dealiased t c) then
-        fl := { fl with negJoin := fl.negJoin.setIfInBounds c true }
-        fl ← addNegationForOperands t (n + 1) c fl
-    | .joined _ ns =>
-      for o in ns do
-        fl := (fl.setParent o nodeId).setParent o 1
-    | _ => pure ()
-  for v in t.volumes do
-    fl := fl.setParent v 0
-  return fl
+  match foldE (fjStep t) (List.range n) fl0 with
+  | .error e => .error e
+  | .ok fl => .ok (t.volumes.foldl (fun fl v => fl.setParent v 0) fl)
 
 /-- `has_negated_join_parent` lambda of `should_insert_join` -/
 def hasNegatedJoinParent (fl : DMFlags) (n : Nat) : Bool :=
-  (List.range fl.size).any fun p => decide (2 ≤ p) && fl.parent n p && fl.negJoin.getD p false
+  (List.range fl.size).any fun p => decide (2 ≤ p) && fl.parent n p && fl.negJoin p
 
 /-- `should_insert_join(node_id)` -/
 def shouldInsertJoin (t : Tree) (fl : DMFlags) : Nat → Nat → Bool
@@ -112,89 +131,109 @@ def shouldInsertJoin (t : Tree) (fl : DMFlags) : Nat → Nat → Bool
            (isJoined d && shouldInsertJoin t fl fuel p)
              || (isNegated d && hasNegatedJoinParent fl p))
 
+/-- one operand of `build_negated_node` -/
+def negOperand (t : Tree) (tr : TrMap) (n : Nat) : Except String Nat :=
+  match dealiased t n with
+  | .negated c =>
+    if (tr c).unmodified = invalid then .error "assert" else .ok (tr c).unmodified
+  | _ =>
+    let v := if (tr n).newNegation ≠ invalid then (tr n).newNegation else (tr n).oppositeJoin
+    if v = invalid then .error "assert" else .ok v
+
+def negOperands (t : Tree) (tr : TrMap) : List Nat → Except String (List Nat)
+  | [] => .ok []
+  | n :: ns =>
+    match negOperand t tr n with
+    | .error e => .error e
+    | .ok u =>
+      match negOperands t tr ns with
+      | .error e => .error e
+      | .ok us => .ok (u :: us)
+
+def flipOp : Op → Op
+  | .and => .or
+  | .or => .and
+
 /-- `build_negated_node(joined)` -/
-def buildNegatedNode (t : Tree) (tr : Array Matching) (op : Op) (nodes : List Nat) :
-    Except String Node := do
-  let mut operands : List Nat := []
-  for n in nodes do
-    match dealiased t n with
-    | .negated c =>
-      let u := (tr.getD c {}).unmodified
-      if u = invalid then throw "assert"
-      operands := operands ++ [u]
-    | _ =>
-      let m := tr.getD n {}
-      let v := if m.newNegation ≠ invalid then m.newNegation else m.oppositeJoin
-      if v = invalid then throw "assert"
-      operands := operands ++ [v]
-  return .joined (if op = .and then .or else .and) operands
+def buildNegatedNode (t : Tree) (tr : TrMap) (op : Op) (nodes : List Nat) : Except String Node :=
+  match negOperands t tr nodes with
+  | .error e => .error e
+  | .ok us => .ok (.joined (flipOp op) us)
 
 /-- `process_negated_joined_nodes(node_id, result)`: (insert unmodified?, result, translation) -/
-def processNegatedJoined (t : Tree) (fl : DMFlags) (nodeId : Nat) (result : Tree)
-    (tr : Array Matching) : Except String (Bool × Tree × Array Matching) := do
+def processNegatedJoined (t : Tree) (fl : DMFlags) (nodeId : Nat) (result : Tree) (tr : TrMap) :
+    Except String (Bool × Tree × TrMap) :=
   match dealiased t nodeId with
   | .negated c =>
     if isJoined (dealiased t c) then
-      let tr' := tr.modify nodeId fun m => { m with simplifiedTo := (tr.getD c {}).oppositeJoin }
-      return (false, result, tr')
-    if fl.parent nodeId 0 || !fl.parent nodeId 1 then
-      return (true, result, tr)
-    let keep := (List.range fl.size).any fun p =>
-      decide (2 ≤ p) && fl.parent nodeId p && isJoined (dealiased t p)
-        && shouldInsertJoin t fl (fl.size + 1) p
-    return (keep, result, tr)
+      .ok (false, result, updTr tr nodeId fun m => { m with simplifiedTo := (tr c).oppositeJoin })
+    else if fl.parent nodeId 0 || !fl.parent nodeId 1 then .ok (true, result, tr)
+    else
+      .ok ((List.range fl.size).any (fun p =>
+        decide (2 ≤ p) && fl.parent nodeId p && isJoined (dealiased t p)
+          && shouldInsertJoin t fl (fl.size + 1) p), result, tr)
   | .joined op ns =>
-    let mut result := result
-    let mut tr := tr
-    if fl.negJoin.getD nodeId false then
-      let neg ← buildNegatedNode t tr op ns
-      let (r, newId, _) := insert result neg
-      result := r
-      tr := tr.modify nodeId fun m => { m with oppositeJoin := newId }
-    return (shouldInsertJoin t fl (fl.size + 1) nodeId, result, tr)
-  | _ => return (true, result, tr)
+    if fl.negJoin nodeId then
+      match buildNegatedNode t tr op ns with
+      | .error e => .error e
+      | .ok neg =>
+        .ok (shouldInsertJoin t fl (fl.size + 1) nodeId, (insert result neg).1,
+          updTr tr nodeId fun m => { m with oppositeJoin := (insert result neg).2.1 })
+    else .ok (shouldInsertJoin t fl (fl.size + 1) nodeId, result, tr)
+  | _ => .ok (true, result, tr)
+
+/-- the copy of an original node with its children translated to the new tree -/
+def translateNode (tr : TrMap) : Node → Except String Node
+  | .negated c =>
+    if (tr c).unmodified = invalid then .error "assert" else .ok (.negated (tr c).unmodified)
+  | .joined op ns =>
+    if (ns.map fun o => (tr o).equivalent).contains invalid then .error "assert"
+    else .ok (.joined op (ns.map fun o => (tr o).equivalent))
+  | n => .ok n
+
+/-- state of the second pass -/
+structure DMState where
+  result : Tree
+  tr : TrMap
+
+/-- body of the main loop of `build_simplified_tree()` -/
+def dmStep (t : Tree) (fl : DMFlags) (st : DMState) (nodeId : Nat) : Except String DMState :=
+  match processNegatedJoined t fl nodeId st.result st.tr with
+  | .error e => .error e
+  | .ok (keep, r, tr) =>
+    if keep = false then .ok ⟨r, tr⟩
+    else
+      match translateNode tr (dealiased t nodeId) with
+      | .error e => .error e
+      | .ok newNode =>
+        let r2 := (insert r newNode).1
+        let newId := (insert r newNode).2.1
+        let tr2 := updTr tr nodeId fun m => { m with unmodified := newId }
+        if fl.newNeg nodeId then
+          .ok ⟨(insert r2 (.negated newId)).1,
+            updTr tr2 nodeId fun m => { m with newNegation := (insert r2 (.negated newId)).2.1 }⟩
+        else .ok ⟨r2, tr2⟩
+
+/-- the volume loop of `build_simplified_tree()` -/
+def dmVolumes (tr : TrMap) : List Nat → Tree → Except String Tree
+  | [], r => .ok r
+  | v :: vs, r =>
+    if (tr v).equivalent = invalid then .error "assert"
+    else dmVolumes tr vs (r.insertVolume (tr v).equivalent)
 
 /-- `build_simplified_tree()` -/
-def buildSimplifiedTree (t : Tree) (fl : DMFlags) : Except String Tree := do
-  let n := t.size
-  let mut result := Tree.empty
-  let mut tr : Array Matching := Array.replicate n {}
-  for nodeId in [0:n] do
-    let (keep, r, tr') ← processNegatedJoined t fl nodeId result tr
-    result := r
-    tr := tr'
-    if !keep then continue
-    let mut newNode := dealiased t nodeId
-    match newNode with
-    | .negated c =>
-      let u := (tr.getD c {}).unmodified
-      if u = invalid then throw "assert"
-      newNode := .negated u
-    | .joined op ns =>
-      let ns' := ns.map fun o => (tr.getD o {}).equivalent
-      if ns'.contains invalid then throw "assert"
-      newNode := .joined op ns'
-    | _ => pure ()
-    let (r2, newId, _) := insert result newNode
-    result := r2
-    tr := tr.modify nodeId fun m => { m with unmodified := newId }
-    if fl.newNeg.getD nodeId false then
-      let (r3, negId, _) := insert result (.negated newId)
-      result := r3
-      tr := tr.modify nodeId fun m => { m with newNegation := negId }
-  for v in t.volumes do
-    let e := (tr.getD v {}).equivalent
-    if e = invalid then throw "assert"
-    result := result.insertVolume e
-  return result
+def buildSimplifiedTree (t : Tree) (fl : DMFlags) : Except String Tree :=
+  match foldE (dmStep t fl) (List.range t.size) ⟨Tree.empty, fun _ => {}⟩ with
+  | .error e => .error e
+  | .ok st => dmVolumes st.tr t.volumes st.result
 
 /-- `transform_negated_joins(tree)` = `DeMorganSimplifier{tree}()` -/
-def transformNegatedJoins (t : Tree) : Except String Tree := do
-  let fl ← findJoinNegations t
-  buildSimplifiedTree t fl
+def transformNegatedJoins (t : Tree) : Except String Tree :=
+  match findJoinNegations t with
+  | .error e => .error e
+  | .ok fl => buildSimplifiedTree t fl
 
-/-- documented precondition of `DeMorganSimplifier`: no alias nodes and no double negation
-    (node 1 = `Negated{0}` is the only negation allowed to point at a constant's negation) -/
+/-- documented precondition of `DeMorganSimplifier`: no alias nodes and no double negation -/
 def demorganPrecondition (t : Tree) : Bool :=
   t.nodes.all fun n =>
     match n with
